@@ -163,14 +163,13 @@ func buildPriv(p *PrivSpec) *privObjs {
 
 // row is a decomposed value held "in flight" by the simulated driver.
 type row struct {
-	form   byte
-	neg    bool
-	coef   []byte
-	exp    int32
-	src    D
-	bufIdx int // private buffer the coefficient may alias (-1: none)
-	bufGen int
-	valid  bool
+	form  byte
+	neg   bool
+	coef  []byte
+	exp   int32
+	src   D
+	seq   int // number of buffer hand-outs of the task when the row was made
+	valid bool
 }
 
 // Ctx is what an operation sees: the epoch's mode, the shared pool, the
@@ -184,6 +183,8 @@ type Ctx struct {
 	streams []*Stream
 	results []*Result
 	rows    []row
+	arena   []byte    // reusable input buffer of a caller that recycles its memory
+	handed  []memSpan // memory the task handed to the library as a buffer, or wrote to itself, in order
 	task    int
 	jends   map[*Stream]*jsonEnd
 }
@@ -223,7 +224,34 @@ func (x *Ctx) buf(slot int64) []byte {
 		return nil
 	}
 	x.priv.bufGen[slot]++
-	return x.priv.bufs[slot]
+	b := x.priv.bufs[slot]
+	x.noteWrite(b)
+	return b
+}
+
+type memSpan struct{ lo, hi uintptr }
+
+// noteWrite records that the task gave b (with its spare capacity) to the
+// library to write into, or wrote into it itself.
+func (x *Ctx) noteWrite(b []byte) {
+	if lo, hi := span(b); hi > lo {
+		x.handed = append(x.handed, memSpan{lo, hi})
+	}
+}
+
+// untouchedSince reports whether none of the memory handed out since seq
+// overlaps b.
+func (x *Ctx) untouchedSince(seq int, b []byte) bool {
+	lo, hi := span(b)
+	if hi == lo {
+		return true
+	}
+	for _, m := range x.handed[seq:] {
+		if m.lo < hi && lo < m.hi {
+			return false
+		}
+	}
+	return true
 }
 
 func (x *Ctx) setBuf(slot int64, b []byte) {
@@ -253,6 +281,40 @@ func guard(in []byte) ([]byte, func() string) {
 			return fmt.Sprintf("input bytes modified: %x -> %x", in, full[:len(in)])
 		}
 		for i := len(in); i < len(full); i++ {
+			if full[i] != 0xA5 {
+				return "spare capacity of an input slice written"
+			}
+		}
+		return ""
+	}
+}
+
+// input hands a byte-string input to the library the way a caller with a
+// recycled buffer does: every second call of a task places the bytes in the
+// same long-lived arena (so the memory of an earlier input is overwritten by
+// a later one, which is fatal only if the library kept an alias), the others
+// get fresh memory. Either way the spare capacity holds sentinels and the
+// returned function reports writes by the callee.
+func (x *Ctx) input(in []byte) ([]byte, func() string) {
+	if in == nil || len(x.results)%2 == 1 {
+		return guard(in)
+	}
+	const spare = 8
+	need := len(in) + spare
+	if cap(x.arena) < need {
+		x.arena = make([]byte, need, need*2)
+	}
+	full := x.arena[:need]
+	copy(full, in)
+	for i := len(in); i < need; i++ {
+		full[i] = 0xA5
+	}
+	s := full[:len(in)]
+	return s, func() string {
+		if !bytes.Equal(full[:len(in)], in) {
+			return fmt.Sprintf("input bytes modified: %x -> %x", in, full[:len(in)])
+		}
+		for i := len(in); i < need; i++ {
 			if full[i] != 0xA5 {
 				return "spare capacity of an input slice written"
 			}
